@@ -324,6 +324,7 @@ def run_check(prop, tier, seed, args, t0):
             samples.append({"obligation": gname, "kind": g["kind"], "instances": len(g["obls"]), "verdict": r.status,
                             "backend": r.backend, "secs": round(r.secs, 3)})
     # functions that could not be brought under contract on this tree
+    undecided_final = []
     for rep in reports:
         if rep.status != "ok":
             lost = [g for g in ledger_set if g.startswith(rep.key + "/") or g.startswith(rep.key + "{")]
@@ -331,7 +332,8 @@ def run_check(prop, tier, seed, args, t0):
                 note = f"{len(lost)} obligations discharged on the baseline can no longer be generated: {rep.detail}"
                 u = {"class": "undecided", "obligation": f"{rep.key}/<generation>", "tried": [],
                      "payload": {"property": prop, "obligation": {"name": f"{rep.key}/<generation>"}, "verifier_output": rep.detail, "note": note}}
-                violations.append(try_native_search(plan, prop, u, known))
+                nv = try_native_search(plan, prop, u, known)
+                (known_hits if nv["class"] == "known" else violations if nv["class"] in ("violation", "nofail") else undecided_final).append(nv)
             else:
                 errors.append(f"{rep.key}: {rep.detail}")
     # undecided obligations that were discharged on the baseline -> violation without input
@@ -342,7 +344,7 @@ def run_check(prop, tier, seed, args, t0):
             violations.append(nv)
         else:
             still_undecided.append(u)
-    undecided = still_undecided
+    undecided = still_undecided + undecided_final
     # obligations in the ledger that vanished altogether (e.g. a raise statement removed)
     # are not a violation by themselves: fewer exits means fewer obligations.
     # ---- ground checks and bounded stand-ins
@@ -586,8 +588,18 @@ def try_native_search(plan, prop, u, known=(), refuted=False):
     payload = u.get("payload") or {"property": prop, "obligation": {"name": gname}, "solver": {"tried": u.get("tried")}}
     fnkey = gname.split("/")[0].split("{")[0]
     c = plan.ctx.contracts.get(fnkey) or next((t for t in plan.targets if t.key == fnkey), None)
+    if c is None:  # labels may contain '/': the contract whose key is the longest prefix of the obligation's name
+        cands = [t for t in plan.targets if gname.startswith(t.key + "/") or gname.startswith(t.key + "{")]
+        c = max(cands, key=lambda t: len(t.key)) if cands else None
+    job = None
     if c is not None and c.search is not None:
         job = c.search(getattr(c, "home", plan), c)
+    elif c is not None and c.entry is None and c.params and all(isinstance(k, str) for k in c.params.values()) and \
+            not any(callable(e) for e in list(c.ensures) + list(c.raises.values()) + list(c.requires)):
+        # a contract over plain parameters: its clauses are evaluated natively over a grid of sample arguments
+        job = default_job(getattr(c, "home", plan), c, {})
+        job.update({"grid": True, "params": dict(c.params), "ghost_kinds": {g: k for g, k in c.ghost_params.items() if isinstance(k, str)}})
+    if job is not None:
         res = native_call(job, timeout=600)
         payload["native_search"] = {"job": {k: v for k, v in job.items() if k != "inputs"}, "result": res}
         if res.get("violated"):
@@ -604,8 +616,10 @@ def try_native_search(plan, prop, u, known=(), refuted=False):
         p = write_replay(prop, gname, payload)
         return {"class": "known", "what": f"{k['id']}: {k['what']} [{gname}]", "replay": p}
     if gname.endswith("/<generation>"):
+        # the function has left the verifier's subset (or no longer has the shape its contract speaks about) and no failing input was
+        # found natively: this is "cannot decide", not a refuted obligation - a harmless rewrite must not raise an alarm
         p = write_replay(prop, gname, payload)
-        return {"class": "nofail", "obligation": gname, "replay": p}
+        return {"class": "undecided", "obligation": gname, "replay": p, "tried": [("generation", payload.get("verifier_output", "")[:160])]}
     if lkey(gname) in {lkey(g) for g in ledger.get("discharged", [])}:
         payload["note"] = "obligation was discharged on the baseline tree and now fails; no failing input found"
         p = write_replay(prop, gname, payload)
